@@ -35,6 +35,15 @@ type HarnessSpec struct {
 	Window    int    `json:"window"`   // expand into a family of windows of this length ...
 	Stride    int    `json:"stride"`   // ... every stride steps over the baseline run
 	Policies  []string `json:"policies"`
+	QuickWindows  []int    `json:"quick_windows"`  // window starts also run in the quick tier
+	QuickPolicies []string `json:"quick_policies"` // policies of the quick tier (default: all)
+	Repeat        int      `json:"repeat"`
+	BudgetS       int      `json:"budget_s"`
+	BranchPrune   bool     `json:"branch_prune"` // wall-clock budget of one symbolic execution
+	Classes       []string `json:"classes"`    // obligation classes judged for this property (empty = all)
+	AssertIDs     []string `json:"assert_ids"` // substrings of assertion ids judged (empty = all)         // native replay: repeat up to this many times (schedule-dependent scenarios)
+	Params    map[string]int64   `json:"params"` // concrete parameters of this run
+	Expand    map[string][]int64 `json:"expand"` // one run per combination of these parameter values
 	Stubs     map[string]string `json:"stubs"` // repository function -> contract function in the overlay (assume-guarantee)
 }
 
@@ -109,11 +118,19 @@ func runHarness(l *loaded, spec HarnessSpec, trace bool, dumpDir string) *Harnes
 		m.Intrinsics[from] = exec.Redirect(to)
 	}
 	m.SymFrom, m.SymTo, m.Policy = spec.SymFrom, spec.SymTo, spec.Policy
+	m.Params = spec.Params
+	m.PruneBranches = spec.BranchPrune
+	budget := spec.BudgetS
+	if budget == 0 {
+		budget = 300
+	}
+	m.Deadline = time.Now().Add(time.Duration(budget) * time.Second)
 	m.Deterministic = !spec.Symbolic
 	m.NoPrune = spec.NoPrune
 
 	// pruning solver: assumptions asserted as they appear
 	pr := sym.NewPrinter(m.C)
+	pr.Named = true
 	ps, err := newSolver("z3-new", 2000)
 	if err != nil {
 		res.Err = err.Error()
@@ -123,12 +140,16 @@ func runHarness(l *loaded, spec HarnessSpec, trace bool, dumpDir string) *Harnes
 	synced := 0
 	var nFeas int
 	var feasDur time.Duration
+	feasCache := map[int]bool{}
 	m.Feasible = func(g exec.T) bool {
 		if g.IsFalse() {
 			return false
 		}
 		if g.IsTrue() {
 			return true
+		}
+		if r, ok := feasCache[g.ID]; ok {
+			return r
 		}
 		nFeas++
 		f0 := time.Now()
@@ -140,6 +161,7 @@ func runHarness(l *loaded, spec HarnessSpec, trace bool, dumpDir string) *Harnes
 				return true
 			}
 			ps, pr, synced = np, sym.NewPrinter(m.C), 0
+			pr.Named = true
 		}
 		for ; synced < len(m.Events); synced++ {
 			e := m.Events[synced]
@@ -150,11 +172,14 @@ func runHarness(l *loaded, spec HarnessSpec, trace bool, dumpDir string) *Harnes
 		}
 		ps.Send(pr.Emit(g))
 		r, _, _ := ps.Check("(assert "+pr.Ref(g)+")\n", nil)
+		// unsat stays unsat as assumptions only grow; a cached "feasible" can only make pruning less sharp
+		feasCache[g.ID] = r != solve.Unsat
 		return r != solve.Unsat
 	}
 
 	t0 := time.Now()
 	m.Trace2 = os.Getenv("VCHECK_PROGRESS") == "2"
+	m.ClockKeys = os.Getenv("VCHECK_CLOCKKEYS") != "0"
 	if os.Getenv("VCHECK_PROGRESS") != "" {
 		m.Progress = func(step, enumerated, live, alts, gors int) {
 			fmt.Fprintf(os.Stderr, "[%s] step %d: %d candidates (%d enumerated), %d alternatives in %d goroutines, %d terms, %d feasibility queries (%.1fs), t=%.1fs\n",
